@@ -17,7 +17,7 @@ struct uniform_int_distribution {
 
         constexpr param_type() noexcept = default;
 
-        explicit constexpr param_type(result_type min, result_type max = result_type(1)) noexcept
+        explicit constexpr param_type(result_type min, result_type max = numeric_limits<result_type>::max()) noexcept
             : _min{min}
             , _max{max}
         {
@@ -75,9 +75,12 @@ struct uniform_int_distribution {
     template <typename URBG>
     [[nodiscard]] constexpr auto operator()(URBG& g, param_type const& parm) noexcept(noexcept(g())) -> result_type
     {
-        auto const random = g();
-        auto const range  = static_cast<decltype(g())>(parm.b() - parm.a());
-        return static_cast<result_type>(parm.a() + static_cast<result_type>((random % range)));
+        // Number of values in the closed interval [a, b], computed modulo 2^64. Zero means all 2^64 values.
+        auto const first  = static_cast<unsigned long long>(parm.a());
+        auto const range  = static_cast<unsigned long long>(parm.b()) - first + 1ULL;
+        auto const random = static_cast<unsigned long long>(g());
+        auto const offset = range == 0ULL ? random : random % range;
+        return static_cast<result_type>(first + offset);
     }
 
     friend constexpr auto operator==(uniform_int_distribution const& x, uniform_int_distribution const& y) -> bool
